@@ -1,46 +1,63 @@
 #!/usr/bin/env python3
 """Evaluate a seeded change produced by a sub-agent and file it under /verif/seeded/<id>/.
-  seed_eval.py <src_dir with patch.diff demo.cpp notes.txt> <seed id e.g. C13-1> <property> <check> [<check>...] [--cxxflags "..."]
-Steps: (1) demo on the unchanged tree must exit 0; (2) apply patch to /repo, suite must pass; (3) demo must fail;
-(4) run the checks (quick) and record which report a violation; (5) restore /repo.  Writes meta.json."""
+  seed_eval.py <src_dir with patch.diff demo.cpp notes.txt> <seed id e.g. C13-1> <property> <check> [<check>...] [--cxxflags "..."] [--tier quick]
+Works on a scratch COPY of /repo's working tree (outside /repo and /verif; removed afterwards), so it can run next to other
+checks and several evaluations can run at once:
+  (1) the demo on the unchanged copy must exit 0; (2) the patch must apply and the unedited test-suite must pass with it;
+  (3) the demo must then fail; (4) the named checks run against the patched copy (QENTEM_REPO / QENTEM_BUILD / QENTEM_OUT /
+  QENTEM_EVIDENCE point into the scratch directory) and the ones that exit 1 with a VIOLATION line are recorded.
+Writes meta.json."""
 import sys, os, subprocess, json, shutil, tempfile
 args = sys.argv[1:]
 cxxflags = "-std=c++17 -march=native -DQENTEM_SSE2=1"
+tier = "quick"
 if "--cxxflags" in args:
     i = args.index("--cxxflags"); cxxflags = args[i + 1]; del args[i:i + 2]
+if "--tier" in args:
+    i = args.index("--tier"); tier = args[i + 1]; del args[i:i + 2]
 src, sid, prop, checks = args[0], args[1], args[2], args[3:]
 dst = "/verif/seeded/" + sid
 os.makedirs(dst, exist_ok=True)
 for f in ("patch.diff", "demo.cpp", "notes.txt"):
     if os.path.exists(os.path.join(src, f)) and os.path.abspath(src) != os.path.abspath(dst):
         shutil.copy(os.path.join(src, f), dst)
-REPO = "/repo"
+
+
 def sh(cmd, **kw):
     return subprocess.run(cmd, shell=True, capture_output=True, text=True, **kw)
-assert sh("git -C /repo status --porcelain --untracked-files=no").stdout.strip() == "", "repo dirty"
+
+
 tmp = tempfile.mkdtemp(prefix="/tmp/seedeval.")
-def demo():
-    r = sh("g++ %s -w -I/repo/Include %s/demo.cpp -o %s/demo" % (cxxflags, dst, tmp))
-    if r.returncode: return "compile-failed: " + r.stderr[-300:]
-    r = sh("timeout 120 %s/demo" % tmp)
-    return r.returncode
-meta = {"seed": sid, "property": prop, "cxxflags": cxxflags}
-meta["demo_unpatched_rc"] = demo()
-r = sh("git -C /repo apply %s/patch.diff" % dst)
-meta["patch_applies"] = (r.returncode == 0)
+repo = os.path.join(tmp, "repo")
 try:
+    os.makedirs(repo)
+    r = sh("rsync -a --exclude _build --exclude .git /repo/ %s/" % repo)
+    assert r.returncode == 0, r.stderr
+
+    def demo():
+        r = sh("g++ %s -w -I%s/Include %s/demo.cpp -o %s/demo" % (cxxflags, repo, dst, tmp))
+        if r.returncode:
+            return "compile-failed: " + r.stderr[-300:]
+        r = sh("timeout 180 %s/demo" % tmp)
+        return r.returncode
+    meta = {"seed": sid, "property": prop, "cxxflags": cxxflags, "tier": tier, "repo_head": sh("git -C /repo rev-parse --short HEAD").stdout.strip()}
+    meta["demo_unpatched_rc"] = demo()
+    r = sh("patch -p1 -s --no-backup-if-mismatch < %s/patch.diff" % dst, cwd=repo)
+    meta["patch_applies"] = (r.returncode == 0)
     if r.returncode == 0:
-        b = sh("/verif/tools/baseline.sh")
+        b = sh("/verif/tools/baseline.sh %s" % repo)
         meta["suite_passes_with_patch"] = (b.returncode == 0)
         meta["demo_patched_rc"] = demo()
         meta["checks"] = {}
+        env = dict(os.environ, QENTEM_REPO=repo, QENTEM_BUILD=os.path.join(tmp, "build"), QENTEM_OUT=os.path.join(tmp, "out"), QENTEM_EVIDENCE=os.path.join(tmp, "evidence"))
         for c in checks:
-            t = sh("python3 /verif/checks/%s.py --tier quick" % c)
+            t = subprocess.run("timeout 7200 python3 /verif/checks/%s.py --tier %s" % (c, tier), shell=True, capture_output=True, text=True, env=env)
             v = [l for l in t.stdout.splitlines() if l.startswith("VIOLATION")]
-            w = [l.strip() for l in t.stdout.splitlines() if l.startswith("  what:")]
+            w = [l.strip().replace(tmp, "<scratch>") for l in t.stdout.splitlines() if l.startswith("  what:")]
             meta["checks"][c] = {"rc": t.returncode, "violations": len(v), "first": w[:3]}
+            if t.returncode not in (0, 1):
+                meta["checks"][c]["tail"] = t.stdout[-600:]
 finally:
-    sh("git -C /repo checkout -- .")
     shutil.rmtree(tmp, ignore_errors=True)
 meta["valid_seed"] = bool(meta.get("patch_applies") and meta.get("suite_passes_with_patch") and meta.get("demo_unpatched_rc") == 0 and meta.get("demo_patched_rc") not in (0, None))
 meta["detected_by"] = [c for c, x in meta.get("checks", {}).items() if x["rc"] == 1]
